@@ -195,7 +195,7 @@ const (
 // other point (sfi.*, sfs.*, sub.*, trig.*, upd.*, ld.skipped ...) is ignored: not parked, not recorded.
 func KnownPoint(point string) bool {
 	switch point {
-	case "ld.prepare", "ld.prepared", "ld.load", "ld.loaded", "ld.merging", "ld.merged":
+	case "ld.prepare", "ld.prepared", "ld.skipped", "ld.load", "ld.loaded", "ld.merging", "ld.merged":
 		return true
 	}
 	return false
@@ -238,8 +238,10 @@ func (g *Gate) RunSteps(init []int, steps []Step, dsPoint string) (unrealised in
 		switch st.A {
 		case "P":
 			// a request with nothing to ask for (skipLoad) never reaches the data source: it is merged right away
+			// ... and a request that reads from a failed request is skipped (ld.skipped): whoever waited for it proceeds
 			ok = g.Release(st.F, "ld.prepare") && g.Wait(StepWait, func() bool {
-				return g.ParkedLocked(st.F, dsPoint) || g.SeenLocked("ld.merged", st.F)
+				return (g.ParkedLocked(st.F, dsPoint) || g.SeenLocked("ld.merged", st.F) || g.SeenLocked("ld.skipped", st.F)) &&
+					g.allParked(st.Exp, "ld.prepare")()
 			})
 		case "F":
 			skipped := false
@@ -272,7 +274,7 @@ func (g *Gate) RunSteps(init []int, steps []Step, dsPoint string) (unrealised in
 			ok = g.Release(st.F, from)
 			time.Sleep(BlockWait)
 			for _, e := range g.Events()[mark:] {
-				if e.F == st.F && (e.Point == "ld.prepared" || e.Point == "ld.merging") {
+				if e.F == st.F && (e.Point == "ld.prepared" || e.Point == "ld.merging" || (e.Point == "ld.loaded" && e.B == 1)) {
 					probeMoved = true
 				}
 			}
